@@ -125,6 +125,43 @@ def run(prog: Program, L: Ledger) -> None:
     if not io_esc:
         L.ok("W6", "io:per-call-state", "src/quansino/io", f"{n_sh_} candidates in the package")
     tobs = prog.cls("TextObserver")
+    # ---- W7 the output file of an observer is opened once
+    # The `file` setter opens a path with the observer's *original* mode; for 'w' that truncates.  The constructor is the one
+    # place where that is what the user asked for.  Any other store of a path-like value into an observer's `file` (a
+    # "reopen" helper run before the next run() call) throws away the lines and frames completed so far.
+    L.rule("W7", "a path-backed output file is opened once, by the observer's constructor: no other code stores a path-like value into an observer's `file` (the setter opens with the original mode — 'w' truncates completed output)")
+    setter = prog.lookup_setter(tobs, "file")
+    if setter is None:
+        raise AnalysisError("TextObserver.file setter missing")
+    opens_with_mode = any(isinstance(c_, ast.Call) and isinstance(c_.func, ast.Attribute) and c_.func.attr == "open" or (isinstance(c_, ast.Call) and norm(c_.func) == "open") for c_ in ast.walk(setter.node))
+    mode_user = any(isinstance(n_, ast.Attribute) and n_.attr in ("mode", "_mode") and isinstance(n_.value, ast.Name) and n_.value.id == "self" for n_ in ast.walk(setter.node))
+    n_file_stores = 0
+    for fi_ in prog.iter_functions():
+        for st_ in walk_no_nested(fi_.node):
+            if not isinstance(st_, (ast.Assign, ast.AnnAssign)) or getattr(st_, "value", None) is None:
+                continue
+            tg_ = st_.targets if isinstance(st_, ast.Assign) else [st_.target]
+            if not any(isinstance(t_, ast.Attribute) and t_.attr == "file" for t_ in tg_):
+                continue
+            n_file_stores += 1
+            in_ctor = fi_.name == "__init__" and fi_.cls is not None and prog.is_subclass(fi_.cls, tobs) and any(isinstance(t_, ast.Attribute) and isinstance(t_.value, ast.Name) and t_.value.id == "self" for t_ in tg_)
+            if in_ctor:
+                L.ok("W7", f"{fi_.qualname}:opens-its-file", f"{fi_.module.relpath}:{st_.lineno}")
+                continue
+            v_ = st_.value
+            pathlike = (isinstance(v_, ast.Call) and norm(v_.func) in ("Path", "pathlib.Path", "str", "os.fspath")) or isinstance(v_, ast.JoinedStr) \
+                or (isinstance(v_, ast.Constant) and isinstance(v_.value, str)) or (isinstance(v_, ast.Attribute) and v_.attr == "name") \
+                or any(isinstance(n_, ast.Attribute) and n_.attr == "name" for n_ in ast.walk(v_))
+            recv_ = next((norm(t_.value) for t_ in tg_ if isinstance(t_, ast.Attribute) and t_.attr == "file"), "")
+            appending = any(isinstance(a_, ast.Assign) and a_.lineno < st_.lineno and isinstance(a_.value, ast.Constant) and isinstance(a_.value.value, str) and "w" not in a_.value.value
+                            and any(isinstance(t_, ast.Attribute) and t_.attr in ("mode", "_mode") and norm(t_.value) == recv_ for t_ in a_.targets) for a_ in walk_no_nested(fi_.node))
+            if pathlike and opens_with_mode and mode_user and not appending:
+                L.violation("W7", f"{fi_.qualname}:reopens-file", f"{fi_.module.relpath}:{st_.lineno}",
+                            f"`{norm(st_)[:90]}` hands a path to the observer's `file` setter after construction: {setter.qualname} opens it with the observer's original mode",
+                            "observer created from a path with mode='w', run(n), close(), run(m): the second open truncates the header and every line/frame of the first run", norm(st_)[:100])
+            else:
+                L.ok("W7", f"{fi_.qualname}:links-stream", f"{fi_.module.relpath}:{st_.lineno}")
+    L.floor("stores into an observer's `file`", n_file_stores, 1)
     observers = [c for c in prog.subclasses(tobs, strict=True)]
     with_call = []
     for c in observers:
